@@ -414,7 +414,10 @@ pub fn rand_cfg<R: Rng>(rng: &mut R, kt_start: f64, max_steps: u64) -> OptCfg {
         1 => [999, 1000, 1001, 2500][rng.gen_range(0, 4)].min(max_steps),
         _ => rng.gen_range(1, max_steps.max(2)),
     };
-    let inner_steps = match rng.gen_range(0, 5) {
+    let inner_steps = match rng.gen_range(0, 6) {
+        // loops of a handful of proposals: the per-loop bookkeeping (cooling, step adaptation,
+        // convergence) runs hundreds of times in one run
+        5 => [1u64, 1, 2, 3, 4, 7][rng.gen_range(0, 6)],
         0 => steps,
         1 => rng.gen_range(1, steps + 1),
         2 => (steps / rng.gen_range(2, 60)).max(1),
